@@ -80,6 +80,10 @@ fn wakes() -> RunResult {
     let threads = 1 + sim::choose("waker.threads", 3);
     let external_loop = sim::flip("external.loop", 1, 2);
     let root_waits = !external_loop && sim::flip("root.waits.too", 1, 2);
+    // the outside loop waits inside the driver (poll_with), or the way a foreign event loop does: poll without
+    // waiting, flush, and park on the driver's descriptor until it is readable (polling driver: its epoll instance;
+    // the readiness of a ring descriptor is not modelled)
+    let fd_parking = external_loop && sim::flip("external.fd.parking", 1, 2);
     let sync_queue = [1usize, 2, 64][sim::choose("sync.queue.size", 3)];
     let n_events = tasks + root_waits as usize;
     let mut deliveries: Vec<Delivery> = (0..n_events)
@@ -103,7 +107,7 @@ fn wakes() -> RunResult {
         move || {
             let mut pb = ProactorBuilder::new();
             pb.capacity(capacity);
-            draw_driver(&mut pb);
+            let fd_parking = (draw_driver(&mut pb) == compio_driver::DriverType::Poll) && fd_parking;
             let rt = compio_runtime::Runtime::builder().with_proactor(pb).sync_queue_size(sync_queue).build().expect("runtime");
             // the waiting tasks
             let handles: Vec<compio_runtime::JoinHandle<()>> = (0..tasks)
@@ -154,7 +158,22 @@ fn wakes() -> RunResult {
                         if t0.elapsed() >= GUARD {
                             break;
                         }
-                        rt.poll_with(if more { Some(Duration::ZERO) } else { Some(GUARD) });
+                        if !fd_parking {
+                            rt.poll_with(if more { Some(Duration::ZERO) } else { Some(GUARD) });
+                            continue;
+                        }
+                        // the documented protocol of a foreign event loop: while tasks are runnable keep turning; with nothing
+                        // runnable flush, which tells whether a wake-up came in meanwhile; from a `false` on, every wake-up
+                        // must make the descriptor readable; once it is, collect what happened and run the tasks
+                        if more || rt.flush() {
+                            rt.poll_with(Some(Duration::ZERO));
+                            continue;
+                        }
+                        sim::probe("parked-on-driver-descriptor");
+                        if !simkernel::pollsim::park_on_fd(std::os::fd::AsRawFd::as_raw_fd(&rt), GUARD.saturating_sub(t0.elapsed())) {
+                            sim::probe("parked-until-the-guard-time");
+                        }
+                        rt.poll_with(Some(Duration::ZERO));
                     }
                 });
             } else {
